@@ -130,6 +130,13 @@ pub fn follow_val(s: &str, heavy: bool) {
             let _ = f.clone().partial(0).map(|p| p.eval(&v));
         }
     }
+    if let Ok(d) = DeepEx::<Val<i32, f64>, exmex::ValOpsFactory<i32, f64>, exmex::ValMatcher>::parse(s) {
+        let n = d.var_names().len();
+        let _ = d.eval(&vec![Val::Float(0.7); n]);
+        let _ = d.unparse();
+        let _ = d.operator_reprs();
+        let _ = exmex::FlatExVal::<i32, f64>::from_deepex(d).map(|f2| f2.eval(&vec![Val::Int(2); n]));
+    }
     let _ = exmex::line_2_statement_val::<i32, f64>(s);
     if let Ok(f) = exmex::parse_val::<i64, f32>(s) {
         let n = f.var_names().len();
@@ -231,6 +238,28 @@ fn nested(rng: &mut Rng, depth: usize) -> String {
     s
 }
 
+/// value-typed texts: small arrays of every length, the vector operators and what surrounds them
+const VSOUP: &[&str] = &[
+    "[1]", "[2.5]", "[1,2]", "[0.5, 1]", "[1,2,3]", "[4,5,6]", "[1,2,3,4]", "[1,2,3,4,5]", "[0]", " cross ", " dot ", "cross", "dot", "length", "(", ")", ",", ".", ".0", ".1", ".2", ".5", "+", "-", "*", "/", "^", "%",
+    "min", "max", "==", "<", "v", "w", "1", "2", "0.5", "-1", " if ", " else ", "&&", "to_float", "to_int", "abs", "-", "(", ")",
+];
+
+/// nesting behind the operators of the value table (right operands that are groups), depth 15..100
+fn nested_val(rng: &mut Rng, depth: usize) -> String {
+    let opens = ["x<(", "x>(", "1&(", "1|(", "x<=(", "x>=(", "x==(", "y!=(", "2+(", "x&&(", "x||(", "1<<(", "3>>(", "(", "-(", "2*(", "x/(", "x%(", "1 XOR (", "x if (", "1 else (", "min(1,", "(x<", "(1|"];
+    // long runs of one opening are as interesting as mixtures
+    let single = if rng.chance(1, 2) { Some(rng.below(opens.len())) } else { None };
+    let mut s = String::new();
+    for _ in 0..depth {
+        s.push_str(opens[single.unwrap_or_else(|| rng.below(opens.len()))]);
+    }
+    s.push_str(["x", "1", "x<1", "true"][rng.below(4)]);
+    for _ in 0..depth {
+        s.push(')');
+    }
+    s
+}
+
 fn mutate(rng: &mut Rng, base: &str) -> String {
     let mut chars: Vec<char> = base.chars().collect();
     for _ in 0..rng.range(1, 4) {
@@ -320,20 +349,26 @@ pub fn run(ctx: &Ctx) -> i32 {
                 _ => rng.range(1, 14),
             };
             let mut t = String::new();
-            for _ in 0..len {
-                t.push_str(*rng.pick(SOUP));
+            let vector = i % 8 == 5;
+            for _ in 0..len.min(if vector { 9 } else { 200 }) {
+                t.push_str(*rng.pick(if vector { VSOUP } else { SOUP }));
             }
             st.class(("soup", t.len(), i % 1000));
-            run_text(&t, true, w, &watch, st, "token soup");
+            run_text(&t, true, w, &watch, st, if vector { "vector token soup" } else { "token soup" });
         }
         // long and deeply nested texts: parsing entry points on an 8 MiB stack (the default of a
         // main thread); the text in flight is written out first so that a stack overflow, which
         // kills the process, leaves a witness behind
         for i in 0..share(n_long, w, ctx.threads) {
-            let text = match i % 3 {
+            let text = match i % 4 {
                 0 => {
                     let dd = rng.range(30, 100);
                     nested(rng, dd)
+                }
+                3 => {
+                    let dd = rng.range(15, 100);
+                    st.bump("texts_nested_behind_value_operators");
+                    nested_val(rng, dd)
                 }
                 1 => {
                     let n = rng.range(200, 1000);
@@ -402,11 +437,13 @@ pub fn run(ctx: &Ctx) -> i32 {
     let mut stats = stats;
     stats.max("max_slowest_single_text_microseconds", watch.slowest_us.load(Ordering::Relaxed));
     let mut report = Report::new(
-        "every text goes through ALL entry points (FlatEx::parse, parse_wo_compile, DeepEx::parse, exmex::parse::<f32>, eval_str f32/f64, parse_val i32/f64 and i64/f32, line_2_statement, line_2_statement_val) and, for each Ok, the follow-ups (eval / eval_relaxed / eval_vec / eval_iter with a correct-length slice, for Val also with hostile values, unparse, Display, the three operator listings, to_deepex / from_deepex, compile, serde round trip, operate_unary/binary, subs, partial / partial_relaxed (all modes) / partial_nth for texts of <= 80 tokens and nesting <= 20), each under catch_unwind on a 1 GiB stack. Families: ALL strings of <= 4 (quick) / <= 6 (thorough) tokens over a 14-symbol alphabet (dual operator, binary operator, unary, call-style operator, identifier, number, '.', '{', '}', '(', ')', ',', space, a multi-byte character); token soup over ~100 tokens incl. unicode, control characters, huge literals; mutations (delete/insert/replace/swap/duplicate/truncate) of a corpus of the repository's own test strings; texts of 200..1000 tokens and nesting 30..100 whose parsing entry points run on an 8 MiB stack (the in-flight text is written to disk first, so a stack overflow leaves a witness). A hang monitor reports any single text that keeps a worker busy for minutes. distinct_nontrivial = enumerated strings + distinct (family, length, index) classes.",
+        "every text goes through ALL entry points (FlatEx::parse, parse_wo_compile, DeepEx::parse, exmex::parse::<f32>, eval_str f32/f64, parse_val i32/f64 and i64/f32, line_2_statement, line_2_statement_val) and, for each Ok, the follow-ups (eval / eval_relaxed / eval_vec / eval_iter with a correct-length slice, for Val also with hostile values, unparse, Display, the three operator listings, to_deepex / from_deepex, compile, serde round trip, operate_unary/binary, subs, partial / partial_relaxed (all modes) / partial_nth for texts of <= 80 tokens and nesting <= 20), each under catch_unwind on a 1 GiB stack. Families: ALL strings of <= 4 (quick) / <= 6 (thorough) tokens over a 14-symbol alphabet (dual operator, binary operator, unary, call-style operator, identifier, number, '.', '{', '}', '(', ')', ',', space, a multi-byte character); token soup over ~100 tokens incl. unicode, control characters, huge literals; mutations (delete/insert/replace/swap/duplicate/truncate) of a corpus of the repository's own test strings; a vector soup (arrays of length 1..5, cross, dot, length, component access) for the value-typed entry points; texts nested 15..100 levels behind the operators of the value table (`x<(x<(...))`, runs of one operator and mixtures); texts of 200..1000 tokens and nesting 30..100 whose parsing entry points run on an 8 MiB stack (the in-flight text is written to disk first, so a stack overflow leaves a witness). A hang monitor reports any single text that keeps a worker busy for minutes. distinct_nontrivial = enumerated strings + distinct (family, length, index) classes.",
     )
     .assume("recursion limits of the deep form beyond nesting 20 / 80 tokens are out of scope for differentiation (the property says so); stack exhaustion there is not judged")
     .require("family: exhaustive short strings", 10000)
     .require("family: token soup", 10000)
+    .require("family: vector token soup", 5000)
+    .require("texts_nested_behind_value_operators", 50)
     .require("family: mutated corpus", 10000)
     .require("texts_parsed_on_an_8MiB_stack", 100)
     .require("max_nesting_depth_on_8MiB_stack", 90)
